@@ -402,6 +402,54 @@ impl Check for C09 {
                 }
             });
         }
+        // the offset lands in a gap that ends exactly on an interior vertex: the next dash begins at
+        // that vertex (no join before it), it is not the subpath's initial dash, and a dash that is
+        // 'on' at the closing point ends there with a cap. Integer lengths: the library's f32 sums are
+        // exact, so a boundary "on" a vertex is on it for the library too (vertex tolerance 0).
+        {
+            let cases: Vec<([(f32, f32); 4], Vec<f32>, f32)> = vec![
+                ([(8., 8.), (28., 8.), (28., 28.), (8., 28.)], vec![30., 20.], 30.),
+                ([(8., 8.), (28., 8.), (28., 28.), (8., 28.)], vec![50., 20.], 50.),
+                ([(8., 8.), (28., 8.), (28., 28.), (8., 28.)], vec![10., 20.], 10.),
+                ([(8., 8.), (28., 8.), (28., 28.), (8., 28.)], vec![10., 20.], -20.),
+                ([(5., 12.), (35., 12.), (35., 22.), (5., 22.)], vec![10., 30.], 10.),
+                ([(30., 6.), (30., 31.), (15., 31.), (15., 6.)], vec![20., 25.], 20.),
+                // the gap ends on the second vertex
+                ([(8., 8.), (28., 8.), (28., 28.), (8., 28.)], vec![30., 40.], 30.),
+            ];
+            run.bound("gap ending exactly on a vertex", format!("{} (integer rectangle, array, offset) triples whose first gap ends exactly on an interior vertex, as closed subpaths, open polylines and closed + tail x 3 caps x 3 joins, width 4; exact f32 arithmetic, vertex tolerance 0", cases.len()));
+            run.par(cases.len(), |s, l| {
+                let (r, arr, off) = &cases[s];
+                let closed = vec![POp::M(r[0].0, r[0].1), POp::L(r[1].0, r[1].1), POp::L(r[2].0, r[2].1), POp::L(r[3].0, r[3].1), POp::Z];
+                let open = closed[..4].to_vec();
+                let mut tail = closed.clone();
+                tail.push(POp::L(r[2].0 + 3.0, r[2].1 + 4.0));
+                for ops in [closed, open, tail] {
+                    for cap in 0..3u8 {
+                        for join in 0..3u8 {
+                            let st = StyleSpec { width: 4.0, cap, join, miter: 4.0, dash: arr.clone(), offset: *off };
+                            l.states += 1;
+                            l.transitions += 2;
+                            l.traces += 1;
+                            l.evals += 1;
+                            match eval_tol(&PathSpec::new(ops.clone()), &st, 0.0, "exact0 | ") {
+                                Ok(st) => {
+                                    l.outcome(st.hash);
+                                    if st.ambiguous {
+                                        l.count("cases_with_a_dash_boundary_on_a_vertex_not_asserted", 1);
+                                    } else {
+                                        l.nontrivial += 1;
+                                        l.count("pixels_asserted", st.asserted);
+                                        l.count("exact_arithmetic_cases_asserted", 1);
+                                    }
+                                }
+                                Err(v) => run.report(4100 + s, v),
+                            }
+                        }
+                    }
+                }
+            });
+        }
         // long paths, thousands of dashes, dash arrays with a hundred entries
         {
             let mut zig: Vec<POp> = vec![POp::M(3.3, 2.1)];
@@ -532,9 +580,10 @@ impl Check for C09 {
     }
 
     fn replay(&self, case: &str) -> Result<Option<Violation>, String> {
-        let (case, tol, prefix) = match case.strip_prefix("ulp | ") {
-            Some(rest) => (rest, 1e-7, "ulp | "),
-            None => (case, 2e-3, ""),
+        let (case, tol, prefix) = match (case.strip_prefix("ulp | "), case.strip_prefix("exact0 | ")) {
+            (Some(rest), _) => (rest, 1e-7, "ulp | "),
+            (_, Some(rest)) => (rest, 0.0, "exact0 | "),
+            _ => (case, 2e-3, ""),
         };
         let scene = parse_scene(case)?;
         for op in &scene.ops {
